@@ -6,7 +6,8 @@ cd /repo || exit 9
 if ! git diff --quiet; then echo "REPO DIRTY"; exit 9; fi
 git apply "$PATCH" || { echo "PATCH DOES NOT APPLY"; exit 9; }
 cd /verif
-./check $PROP --tier $TIER > /tmp/eval-$PROP.log 2>&1
+# evidence of a run on a deliberately broken tree must not replace the committed evidence
+VERIF_EVIDENCE_DIR=/root/.cache/verif-seed-evidence ./check $PROP --tier $TIER > /tmp/eval-$PROP.log 2>&1
 RC=$?
 grep -E "^VIOLATION|^KNOWN-FINDING" /tmp/eval-$PROP.log | cut -c1-200 | head -5
 grep -E "FAILED|BROKEN|INCONCLUSIVE" /tmp/eval-$PROP.log | cut -c1-220 | head -6
